@@ -127,7 +127,15 @@ func (c *sessConn) WriteTo(p []byte, _ net.Addr) (int, error) {
 		c.push(append([]byte(nil), b...))
 	case x < c.drop+c.dup+c.hold && c.held == nil:
 		c.reordered++
-		c.held = b // delivered after the next datagram
+		c.held = b // delivered after the next datagram, at the latest 3 ms from now
+		time.AfterFunc(3*time.Millisecond, func() {
+			c.mu.Lock()
+			if c.held != nil {
+				c.push(c.held)
+				c.held = nil
+			}
+			c.mu.Unlock()
+		})
 	default:
 		c.push(b)
 		if c.held != nil {
@@ -508,10 +516,17 @@ func sessPhaseR(t *testing.T, r *vrng, lg *vlog, rep *vreport, ncases int) {
 		b1done := false
 		direct, carried, blocks := 0, 0, 0
 
+		fedIdx := map[string]int{} // datagrams already in the log are referred to by index
 		feed := func(d []byte) {
 			now := currentMs()
 			s.kcpInput(append([]byte(nil), d...))
-			line := fmt.Sprintf("i %d %d %s = %s", now, sessB2i(ackNoDelay), hx(d), sessProject(s))
+			ref := hx(d)
+			if i, ok := fedIdx[string(d)]; ok {
+				ref = fmt.Sprintf("@%d", i)
+			} else {
+				fedIdx[string(d)] = len(fedIdx)
+			}
+			line := fmt.Sprintf("i %d %d %s = %s", now, sessB2i(ackNoDelay), ref, sessProject(s))
 			lg.printf("%s\n", line)
 			c.ops = append(c.ops, sessShort(line))
 			rep.Steps++
@@ -715,7 +730,7 @@ func sessLivePair(seed uint64, cfg sessCfg, total int, deadline time.Duration) s
 				chunks += sessCeil(l, mss)
 				n += l
 			}
-			a.SetWriteDeadline(time.Now().Add(200 * time.Millisecond))
+			a.SetWriteDeadline(time.Now().Add(20 * time.Millisecond))
 			m, err := a.WriteBuffers(v)
 			if sessIsTimeout(err) {
 				res.timeouts++
@@ -808,7 +823,8 @@ func sessPhaseL(t *testing.T, r *vrng, rep *vreport, npairs, total int) {
 		wg.Add(1)
 		go func(i int) {
 			defer wg.Done()
-			results[i] = sessLivePair(seed, cfg, total, 25*time.Second)
+			// about 200 segments at small mss, `total` bytes at large mss
+			results[i] = sessLivePair(seed, cfg, min(total, max(3000, 200*(cfg.mtu-IKCP_OVERHEAD))), 20*time.Second)
 		}(i)
 	}
 	wg.Wait()
@@ -853,9 +869,9 @@ func TestVerifSess(t *testing.T) {
 	r := newRng(vSeed())
 	lg := newVlog(t, "C01sess.log")
 	rep := newReport("C01sess")
-	nw, nr, nl, total := 260, 160, 6, 24000
+	nw, nr, nl, total := 700, 400, 10, 24000
 	if vThorough() {
-		nw, nr, nl, total = 4000, 2500, 24, 120000
+		nw, nr, nl, total = 1600, 900, 32, 120000
 	}
 	nw = vEnvInt("VERIF_SESS_W", nw)
 	nr = vEnvInt("VERIF_SESS_R", nr)
